@@ -171,6 +171,25 @@ Theorem C15_bytes_lookup : forall h s k tok,
   Forall bop_ok h -> run_b h = Some s -> lookup s k tok = spec_lookup (map abstract_bop h) k tok.
 Proof. exact run_b_lookup. Qed.
 
+(* ROUND TRIP: the bytes ScyllaDB sends for bounds (a, b) and replicas [raw] (enc_payload: the CQL encoding of
+   tuple<bigint,bigint,list<tuple<uuid,int>>>, hosts below 2^128, shards i32) are decoded to exactly the outcome of
+   the value-level check of (a, b, raw) -- accepted tablet, WrongTokenRange or ShardNum, never Deserialization *)
+Theorem C15_payload_roundtrip : forall a b raw,
+  i64_ok a -> i64_ok b -> raw_wf raw -> (N.of_nat (List.length raw) <= 60000000)%N ->
+  parse_payload (enc_payload a b raw) =
+  match payload_check a b raw with
+  | Ok (f, l, r) => P_Ok f l r
+  | Err WrongTokenRange => P_WrongTokenRange
+  | Err ShardNum => P_ShardNum
+  end.
+Proof. exact parse_enc_payload. Qed.
+
+(* ... so the value-level event Learn k a b raw known IS the byte payload of its encoding *)
+Theorem C15_learn_is_bytes : forall s k a b raw known,
+  i64_ok a -> i64_ok b -> raw_wf raw -> (N.of_nat (List.length raw) <= 60000000)%N ->
+  step_bytes s k (enc_payload a b raw) known = step s (Learn k a b raw known).
+Proof. exact step_bytes_enc. Qed.
+
 (* ---- several tables ---- *)
 
 (* a payload for one table touches no other table; for a table the driver has no entry for, an
@@ -294,6 +313,16 @@ Example C15_ex_bytes :
   parse_payload (framed (enc_signed 8 5) ++ framed (enc_signed 8 9) ++ framed (enc_signed 4 (2 ^ 31 - 1))) = P_Deser DE_RawCqlBytesRead /\
   parse_payload (framed (enc_signed 8 5) ++ framed (enc_signed 8 9) ++ framed (enc_signed 4 (-1))) = P_Deser DE_LengthDeser.
 Proof. repeat split; vm_compute; reflexivity. Qed.
+Example C15_ex_raw_wf :
+  raw_wf [(7%N, 3); ((2 ^ 128 - 1)%N, - 2 ^ 31); (0%N, 2 ^ 31 - 1)] /\
+  ~ raw_wf [((2 ^ 128)%N, 0)] /\ ~ raw_wf [(7%N, 2 ^ 31)] /\ ~ raw_wf [(7%N, - 2 ^ 31 - 1)].
+Proof.
+  split; [|split; [|split]].
+  - repeat constructor; cbn [fst snd]; try (vm_compute; reflexivity).
+  - intros H. inversion H as [|? ? [H1 _] _]. vm_compute in H1. discriminate.
+  - intros H. inversion H as [|? ? [_ H2] _]. vm_compute in H2. discriminate.
+  - intros H. inversion H as [|? ? [_ H2] _]. vm_compute in H2. discriminate.
+Qed.
 Example C15_ex_bytes_history :
   let h := [ BLearn (1, 1)%N (enc_payload 0 10 [(1%N, 0); (2%N, 1)]) [ex_n1; ex_n2];
              BLearn (1, 1)%N [1; 2; 3]%N [ex_n1; ex_n2];                       (* trash: ignored *)
@@ -430,3 +459,5 @@ Print Assumptions C15_bytes_inv.
 Print Assumptions C15_bytes_lookup.
 Print Assumptions C15_learn_tables.
 Print Assumptions C15_maintain_tables.
+Print Assumptions C15_payload_roundtrip.
+Print Assumptions C15_learn_is_bytes.
